@@ -11,6 +11,27 @@ include!("/verif/harness/support.rs");
 
 const STALE_MS: u64 = 15 * 60 * 1000;
 
+/// A `Vec<Node>` whose buffer is a LOCAL ARRAY (Vec::from_raw_parts; never freed: owners are
+/// `mem::forget`-ten, and no harness pushes beyond the array). CBMC folds the `ptr == end` test of a
+/// slice iterator for stack memory but not for heap memory, where every loop over the Vec runs to
+/// the unwinding bound (measured: RoutingTable::add 28 GB -> 0.4 GB, 21 s).
+macro_rules! stack_nodes {
+    ($slab:ident, $cap:expr, [$($n:expr),*]) => {{
+        let mut len = 0usize;
+        $(
+            $slab[len].write($n);
+            len += 1;
+        )*
+        let v: Vec<Node> = unsafe { Vec::from_raw_parts($slab.as_mut_ptr() as *mut Node, len, $cap) };
+        v
+    }};
+}
+macro_rules! slab {
+    ($name:ident, $cap:expr) => {
+        let mut $name: [core::mem::MaybeUninit<Node>; $cap] = unsafe { core::mem::MaybeUninit::uninit().assume_init() };
+    };
+}
+
 fn idb(b0: u8, b1: u8, b19: u8) -> Id {
     let mut x = [0x55u8; 20];
     x[0] = b0;
@@ -33,13 +54,16 @@ fn addr(ip3: u8, port: u16) -> SocketAddrV4 {
 fn kbucket_add_case(n: usize) -> (bool, bool, bool, bool) {
     let head_age: u64 = kani::any();
     kani::assume(head_age <= 2_000_000);
-    let mut b = KBucket::new();
+    slab!(sl, 21);
     let mut i = 0usize;
     while i < n {
         // ids: byte 1 = i; insecure (parity of id[19]=0 xor ip3 = 2*i is even)
-        b.nodes.push(node_aged(idb(0x80, i as u8, 0), addr((2 * i) as u8, 1000 + i as u16), if i == 0 { head_age } else { 1_000 }));
+        sl[i].write(node_aged(idb(0x80, i as u8, 0), addr((2 * i) as u8, 1000 + i as u16), if i == 0 { head_age } else { 1_000 }));
         i += 1;
     }
+    // (stack-backed buffer of capacity 21: KBucket::add never looks at the capacity, and at most
+    // one push follows a removal or a length below 20)
+    let mut b = KBucket { nodes: unsafe { Vec::from_raw_parts(sl.as_mut_ptr() as *mut Node, n, 21) } };
     let inc_b1: u8 = kani::any();
     if n > 2 {
         // at 19/20 entries the incoming id is the head's, a middle entry's, the tail's, or unknown
@@ -191,9 +215,16 @@ fn stub_already_exists(_this: &Node, nodes: &[Node]) -> bool {
 /// ordered insertion a case split over moved buckets: 10 GB.)
 fn table_add_case(b0: u8, b1: u8) -> (bool, bool, u16) {
     let mut t = RoutingTable::new(idb(0, 0, 0));
-    // A (port 7001) in bucket 160, B (port 7002) in bucket 159
-    place(&mut t, node_aged(idb(0x80, 1, 0), addr(2, 7001), 1_000));
-    place(&mut t, node_aged(idb(0x40, 1, 0), addr(5, 7002), 1_000));
+    // A (port 7001) in bucket 160, B (port 7002) in bucket 159. The buckets' Vec<Node> buffers live
+    // on the STACK (Vec::from_raw_parts over local arrays, never freed: the table is forgotten): CBMC
+    // folds `ptr == end` for stack slices but not for heap ones, where every loop over the bucket
+    // ran to the unwinding bound and the obligation exhausted 28 GB.
+    let mut slab_a: [core::mem::MaybeUninit<Node>; 2] = [core::mem::MaybeUninit::uninit(), core::mem::MaybeUninit::uninit()];
+    let mut slab_b: [core::mem::MaybeUninit<Node>; 2] = [core::mem::MaybeUninit::uninit(), core::mem::MaybeUninit::uninit()];
+    slab_a[0].write(node_aged(idb(0x80, 1, 0), addr(2, 7001), 1_000));
+    slab_b[0].write(node_aged(idb(0x40, 1, 0), addr(5, 7002), 1_000));
+    t.buckets.insert(160, KBucket { nodes: unsafe { Vec::from_raw_parts(slab_a.as_mut_ptr() as *mut Node, 1, 2) } });
+    t.buckets.insert(159, KBucket { nodes: unsafe { Vec::from_raw_parts(slab_b.as_mut_ptr() as *mut Node, 1, 2) } });
     let clash_port: u16 = kani::any();
     kani::assume(clash_port == 0 || clash_port == 7001 || clash_port == 7002);
     let verdict: bool = kani::any();
@@ -262,8 +293,10 @@ table_add_harness!(c12_table_add_of_a_stranger_opens_the_bucket_at_its_distance,
 /// not finish symbolic execution in 900 s.)
 fn table_remove_case(id: Id, member: bool) {
     let mut t = RoutingTable::new(idb(0, 0, 0));
-    place(&mut t, node_aged(idb(0x80, 1, 0), addr(2, 7001), 1_000)); // A, bucket 160
-    place(&mut t, node_aged(idb(0x80, 0, 1), addr(9, 7003), 1_000)); // C, bucket 160
+    slab!(sa, 3);
+    // A and C in bucket 160
+    let nodes = stack_nodes!(sa, 3, [node_aged(idb(0x80, 1, 0), addr(2, 7001), 1_000), node_aged(idb(0x80, 0, 1), addr(9, 7003), 1_000)]);
+    t.buckets.insert(160, KBucket { nodes });
     t.remove(&id);
     let (len, first) = match t.buckets.get(&160) {
         Some(b) => (b.nodes.len(), if b.nodes.len() > 0 { b.nodes[0].address().port() } else { 0 }),
@@ -320,7 +353,12 @@ fn stub_table_add(t: &mut RoutingTable, node: Node) -> bool {
 #[kani::stub(RoutingTable::add, stub_table_add)]
 fn c12_reset_id_rebuilds_the_table_through_add() {
     let mut t = RoutingTable::new(idb(0, 0, 0));
-    fill_ab(&mut t);
+    slab!(sa, 2);
+    slab!(sb, 2);
+    let na = stack_nodes!(sa, 2, [node_aged(idb(0x80, 1, 0), addr(2, 7000), 1_000)]);
+    let nb = stack_nodes!(sb, 2, [node_aged(idb(0x40, 1, 0), addr(5, 7000), 1_000)]);
+    t.buckets.insert(160, KBucket { nodes: na });
+    t.buckets.insert(159, KBucket { nodes: nb });
     let nb: u8 = kani::any();
     let new_id = idb(nb, 3, 0);
     t.reset_id(new_id);
@@ -342,12 +380,15 @@ fn c12_reset_id_rebuilds_the_table_through_add() {
 #[kani::stub(std::time::Instant::elapsed, clock::mock_elapsed)]
 fn c12_size_iteration_and_is_empty_agree() {
     let mut t = RoutingTable::new(idb(0, 0, 0));
-    place(&mut t, node_aged(idb(0x80, 1, 0), addr(2, 1), 1_000));
-    place(&mut t, node_aged(idb(0x80, 0, 1), addr(3, 1), 1_000));
+    slab!(sa, 3);
+    slab!(sb, 2);
+    let na = stack_nodes!(sa, 3, [node_aged(idb(0x80, 1, 0), addr(2, 1), 1_000), node_aged(idb(0x80, 0, 1), addr(3, 1), 1_000)]);
+    t.buckets.insert(160, KBucket { nodes: na });
     t.buckets.entry(7).or_default();
     let third: bool = kani::any();
     if third {
-        place(&mut t, node_aged(idb(0x01, 1, 0), addr(4, 1), 1_000));
+        let nb = stack_nodes!(sb, 2, [node_aged(idb(0x01, 1, 0), addr(4, 1), 1_000)]);
+        t.buckets.insert(153, KBucket { nodes: nb });
     }
     let want = if third { 3 } else { 2 };
     assert!(t.size() == want, "C12: size counts every entry");
@@ -384,7 +425,9 @@ fn c14_readding_a_known_node_refreshes_last_seen() {
     kani::assume(age <= 2_000_000);
     let secure: bool = kani::any(); // parity of the last octet decides the BEP42 class under the stand-in
     let ip3: u8 = if secure { 3 } else { 2 };
-    place(&mut t, node_aged(idb(0x80, 1, 0), addr(ip3, 7000), age));
+    slab!(sa, 3);
+    let na = stack_nodes!(sa, 3, [node_aged(idb(0x80, 1, 0), addr(ip3, 7000), age)]);
+    t.buckets.insert(160, KBucket { nodes: na });
     let again = Node::new(idb(0x80, 1, 0), addr(ip3, 7001));
     let added = t.add(again);
     assert!(added, "C14: a node that answers again (same id, same IP) is accepted again, not rejected by its own entry");
@@ -414,6 +457,12 @@ pub(crate) fn set_stats(t: &mut RoutingTable, s: (usize, f64, usize, f64, usize)
 }
 pub(crate) fn place_pub(t: &mut RoutingTable, n: Node) {
     place(t, n)
+}
+
+/// inserts a (stack-backed, see `stack_nodes!`) bucket holding `nodes` at the distance of its first node
+pub(crate) fn insert_bucket(t: &mut RoutingTable, nodes: Vec<Node>) {
+    let d = t.id.distance(nodes[0].id());
+    t.buckets.insert(d, KBucket { nodes });
 }
 
 /// increments and decrements of the statistics are exact inverses and never underflow when paired
